@@ -420,6 +420,19 @@ impl<'r> Gen<'r> {
             }
             Shape::Enum(vs) => {
                 let usable: Vec<&VariantDesc> = vs.iter().filter(|v| !v.skip).collect();
+                if usable.is_empty() {
+                    // an enum nobody can select: every form is a mistake of some kind
+                    let form = match self.rng.below(4) {
+                        0 => Form::Word,
+                        1 => Form::NV(Value::Str("x".into())),
+                        2 => Form::List(vec![]),
+                        _ => {
+                            let inner = self.item("anything", Form::Word);
+                            Form::List(vec![Nested::Item(inner)])
+                        }
+                    };
+                    return self.item(name, form);
+                }
                 let has_word = vs.iter().any(|v| v.word) || d.from_word.is_some();
                 let r = self.rng.below(100);
                 if has_word && r < 15 {
@@ -614,8 +627,8 @@ impl<'r> Gen<'r> {
     }
 }
 
-pub const META_RECEIVERS: [&str; 34] = [
-    "S1", "S2", "S3", "S4", "S5", "S6", "S7", "S8", "S9", "S10", "S11", "S12", "S13", "S14", "S15", "S16", "E4", "N1", "N2", "Rec", "F1", "F2", "F3", "F4", "U1", "NT1", "NT2", "W1", "E1",
+pub const META_RECEIVERS: [&str; 36] = [
+    "S1", "S2", "S3", "S4", "S5", "S6", "S7", "S8", "S9", "S10", "S11", "S12", "S13", "S14", "S15", "S16", "S17", "E4", "E5", "N1", "N2", "Rec", "F1", "F2", "F3", "F4", "U1", "NT1", "NT2", "W1", "E1",
     "E2", "E3", "EH", "WR", "MP",
 ];
 
@@ -820,7 +833,7 @@ pub fn generate(run_seed: u64, mode: &'static str, recvs: &'static std::collecti
 // ------------------------------------------------------------------------------------------------
 // element-level workloads
 
-pub const ELEM_RECEIVERS: [&str; 26] = ["DI9", "VR5", "AT3", "FR6", "VR4", "TR3", "FR5", "VR3", "TR2", "DI8", "FR4", "DI7", "FR1", "FR2", "FR3", "VR1", "VR2", "TR1", "DI1", "DI2", "DI3", "DI4", "DI5", "DI6", "AT1", "AT2"];
+pub const ELEM_RECEIVERS: [&str; 27] = ["AT4", "DI9", "VR5", "AT3", "FR6", "VR4", "TR3", "FR5", "VR3", "TR2", "DI8", "FR4", "DI7", "FR1", "FR2", "FR3", "VR1", "VR2", "TR1", "DI1", "DI2", "DI3", "DI4", "DI5", "DI6", "AT1", "AT2"];
 
 const FOREIGN: [&str; 8] = ["doc = \"hi\"", "cfg(test)", "keep", "keep(1 2)", "derive(Debug)", "other(a = 1)", "allow(dead_code)", "zz::yy(=)"];
 
